@@ -65,18 +65,15 @@ theorem canon_eq (c : Config) :
 /-- **`pipeline_degrees_ok`**: for every combination of the builder flags (crop none / tuple / key and
 centre / random, rescale, pad, the three augmentations, zero-padding stage, coil compression and coil
 padding, body-coil image, sensitivity maps off / unit / RSS ± Gaussian, both delete flags, all six
-reconstruction types, scaling on `kspace` / `masked_kspace` / `body_coil_image`, percentile or maximum,
+reconstruction types, scaling on `kspace` / `masked_kspace`, percentile or maximum,
 seeding, supervised and SSL with the three splitters ± kept ACS) that is `valid`, the composed stage
 list type-checks from a raw sample, every normalised output has degree 0, the scaling factor has
 degree 1, the network inputs are present and no temporaries leak. -/
 theorem pipeline_degrees_ok (c : Config) (hv : c.valid = true) : degreesOk c.ssl (build c) = true := by
   apply degreesOk_of_canon
-  have hsk : c.scalingKey = .key .maskedKspace ∨ c.scalingKey = .key .kspace ∨ c.scalingKey = .key .bodyCoilImage := by
+  have hsk : c.scalingKey = .key .maskedKspace ∨ c.scalingKey = .key .kspace := by
     simp only [Config.valid, Bool.and_eq_true, Bool.or_eq_true, beq_iff_eq] at hv
-    rcases hv.1.1.1.2 with (h | h) | h
-    · exact Or.inl h
-    · exact Or.inr (Or.inl h)
-    · exact Or.inr (Or.inr h.1)
+    exact hv.1.1.1.2
   have hmf : c.maskFunc = true := by
     simp only [Config.valid, Bool.and_eq_true] at hv; exact hv.1.1.1.1
   have h := enum_all c.recon c.scalingKey c.ssl hsk
